@@ -66,7 +66,9 @@ CHECKS = {
                  "the consumers and every pull of the notified adapters is answered ok (update_pulls_okC: three phases - "
                  "pulls, publications, notification of the relays by induction over the relay list). Scope: time-stepped "
                  "components, one push-based adapter per link, pass-through adapters upstream and pass-through / fixed-delay "
-                 "adapters downstream of it. Tied to schedule.py / sdk/output.py / adapters by (i) the update-sequence correspondence "
+                 "adapters downstream of it; links behind DelayToPush (which cuts the dependency, so the guarantee cannot come from "
+                 "the driver): C01Dpush.dpush_pulls_never_fail - along every admissible history of one output (publications, "
+                 "pulls and evictions by other end points) every pull through DelayToPush is answered. Tied to schedule.py / sdk/output.py / adapters by (i) the update-sequence correspondence "
                  "of real Composition.run against the model's run loop and (ii) a network correspondence: the retained "
                  "history length of every output - and of every push-based adapter's buffer - after every update of real runs "
                  "against netRunLoop / netRunLoopC; plus an "
